@@ -902,6 +902,7 @@ func (x *runner) runC07() {
 	}
 	x.runC07Invalid()
 	x.runPatchC07()
+	x.runBatchC07()
 }
 
 // ---------------------------------------------------------------- C09
@@ -1023,6 +1024,7 @@ func (x *runner) runC09() {
 			}
 		}
 	}
+	x.runQueryC09()
 }
 
 // ---------------------------------------------------------------- C11
